@@ -113,8 +113,8 @@ pub fn op_strategy(w: &Weights) -> BoxedStrategy<Op> {
     ));
     v.push((
         w.add,
-        (m, ts.clone(), ap.clone())
-            .prop_map(|(m, ts, apply)| Op::Add { m, ts, apply })
+        (m, ts.clone(), ap.clone(), prop_oneof![3 => Just(0u8), 1 => Just(1u8)])
+            .prop_map(|(m, ts, apply, extra)| Op::Add { m, ts, apply, extra })
             .boxed(),
     ));
     v.push((
